@@ -123,6 +123,8 @@ type FuncSpec struct {
 	// "typednil" a nil *FailErr inside the error interface (still a non-nil error),
 	// "unsat" a fresh *argmapper.ErrArgumentUnsatisfied, "wrapunsat" an error wrapping one.
 	FailAs string `json:"failAs"`
+	// Upper: spell the names of this function's struct tags / value sets in upper case
+	Upper bool `json:"upper"`
 }
 
 // GenSpec is a converter generator: for every value vertex whose type is From
